@@ -30,16 +30,17 @@ oracle (the property on the real code alone)
                       gate set, the re-parsed circuit has the same implementation meaning, and is `==` whenever the
                       result has no directly nested same-kind block (results covered by the next oracle excluded)
   no_illegal_nesting_after_pass   no result has a subcircuit block directly inside a parallel block or a subcircuit
-                      (FAILS on the clean tree: the builder accepts a call, inside `< >` or `subcircuit { }`, of a macro
-                      whose body holds a subcircuit; expand_macros inlines it; no text denotes the result)
+                      (failed before `7f310a6`: the builder accepted a call, inside `< >` or `subcircuit { }`, of a macro
+                      whose body holds a subcircuit, and expand_macros inlined it)
   no_parameter_capture_after_pass   no macro body of a result refers to a register OBJECT named like a parameter of that macro
-                      (FAILS on the clean tree: `register r[4]; map a r[0:4:2]; macro M r { X a[1] }; M 0` — fill_in_map
-                      writes `r[2]` into the body, which the generated text `macro M r { X r[2] }` reads as the parameter)
+                      (failed before `8822e40`: `register r[4]; map a r[0:4:2]; macro M r { X a[1] }; M 0` — fill_in_map
+                      wrote `r[2]` into the body, which the generated text `macro M r { X r[2] }` reads as the parameter)
   commute_subs_macros_when_a_macro_is_named_prepare_all   (no gate set) expand_subcircuits;expand_macros vs the other order
-                      on the program with its first macro renamed `prepare_all` (FAILS on the clean tree: the inserted
-                      bounding statement is looked up BY NAME in the macro table and replaced by the macro's body)
+                      on the program with its first macro renamed `prepare_all`: both applicable ⇒ same meaning, otherwise
+                      the refusal is a JaqalError (failed before `98a447d`: the inserted bounding statement was looked
+                      up BY NAME in the macro table and replaced by the macro's body)
   plain_parse_round_trips   C01 on the plain parse (`c == parse(gen(c))`, same meaning): precondition of legal_after_pass
-                      (FAILS on the clean tree for `map b r[0:t:0]`: the generator drops a literal zero step)
+                      (failed before the C01 repair for `map b r[0:t:0]`: the generator dropped a literal zero step)
   only_jaqal_errors   a pass applied to a parser-made circuit (or to the result of earlier passes) raises nothing but JaqalError
 
 Exit status 0 iff no disagreement and no oracle failure.
@@ -53,6 +54,8 @@ from collections import Counter
 
 DEFAULT_DRIVER = "/verif/lean/.lake/build/bin/jaqal-model"
 KINDS = ["let", "macros", "subs", "map"]
+# (expand_macro, expand_let, expand_let_map, with override dictionary)
+ALL_COMBOS = [[em, el, elm, wo] for em in (False, True) for el in (False, True) for elm in (False, True) for wo in (False, True)]
 
 
 def _imports():
@@ -175,7 +178,7 @@ def gen_case(rng, idx, thorough):
     multiset = [gen_pass(rng, lets, ov) for _ in range(rng.randrange(2, 7))]
     return {"id": idx, "text": text, "mode": mode, "src": src, "passes": passes, "ov": ov, "multiset": multiset,
             "perm_seed": rng.randrange(1 << 30), "ov2": gen_ov(rng, lets, 1.0),
-            "flags": [[rng.random() < 0.5, rng.random() < 0.5, rng.random() < 0.5] for _ in range(2)]}
+            "flag_combos": (ALL_COMBOS if thorough else rng.sample(ALL_COMBOS, 4))}
 
 
 def gen_cases(seed, n, thorough):
@@ -450,21 +453,25 @@ def oracle_commute(acc, case, c, baked):
 
 
 def oracle_bounding_name(acc, case):
+    """the program with its first macro renamed `prepare_all` (no gate set): since `98a447d` expand_subcircuits refuses a
+    circuit in which a bounding name is a macro, so the two orders are either both applicable and agree, or the refusal
+    is a JaqalError"""
     import re
     text2 = re.sub(r"\bM0\b", "prepare_all", case["text"])
-    sub = slim(dict(case, text=text2), order1=[["subs"], ["macros", False]], order2=[["macros", False], ["subs"]], ov=[])
+    sub = slim(dict(case, text=text2), order1=[["subs"], ["macros", False]], order2=[["macros", True], ["subs"]], ov=[])
     try:
         c = parse(text2, case["mode"])
     except Exception:  # noqa
         return
     r1, e1 = apply_all(sub["order1"], c)
     r2, e2 = apply_all(sub["order2"], c)
+    name = "commute_subs_macros_when_a_macro_is_named_prepare_all"
     if e1 is not None or e2 is not None:
-        acc.dist["bounding name:not both applicable"] += 1
+        acc.dist["bounding name:refused"] += 1
+        acc.check(name, e1 in (None, "JaqalError") and e2 in (None, "JaqalError"), sub, f"S;M raises {e1}, M;S raises {e2}")
         return
     m1, m2 = completed_meaning(r1, [], True), completed_meaning(r2, [], True)
-    acc.check("commute_subs_macros_when_a_macro_is_named_prepare_all", m1 == m2, sub,
-              f"S;M -> {m1!r}"[:600] + f"  M;S -> {m2!r}"[:600])
+    acc.check(name, m1 == m2, sub, f"S;M -> {m1!r}"[:600] + f"  M;S -> {m2!r}"[:600])
 
 
 def oracle_idempotent(acc, case, p, before, after):
@@ -522,36 +529,42 @@ def oracle_legal(acc, case, prefix, cp):
     acc.check("legal_after_pass", not problems, sub, "; ".join(problems) + f"; text: {t!r}")
 
 
-def oracle_flags(acc, case, c0_outcome):
+def oracle_flags(acc, case, c0_outcome, sxj, with_driver):
+    """corr `parse_flags` and oracle `flags_equal_passes` on the flag combinations of the case (quick: 4 of the 16
+    combinations of three flags × {no override, override} per case, thorough: all 16); one real parse serves both"""
     text, mode = case["text"], case["mode"]
-    for ov in ([], case["ov"]):
+    for em, el, elm, wo in case["flag_combos"]:
+        ov = case["ov"] if wo else []
         od = {n: v for n, v in ov} if ov else None
-        for em in (False, True):
-            for el in (False, True):
-                for elm in (False, True):
-                    sub = slim(case, override=ov, expand_macro=em, expand_let=el, expand_let_map=elm)
-                    a, ea = None, None
-                    try:
-                        a = parse(text, mode, override_dict=od, expand_macro=em, expand_let=el, expand_let_map=elm)
-                    except Exception as e:  # noqa
-                        ea = err_class(e)
-                    hand = []
-                    if em:
-                        hand.append(["macros", True])
-                    if elm:
-                        hand += [["let", ov], ["map"]]
-                    elif el:
-                        hand.append(["let", ov])
-                    if "err" in c0_outcome:
-                        b, eb = None, c0_outcome["err"]
-                    else:
-                        b, eb = apply_all(hand, c0_outcome["ok"])
-                    if ea is not None or eb is not None:
-                        acc.check("flags_equal_passes", ea == eb, sub, f"flags: {ea}, by hand: {eb}")
-                        continue
-                    eq = bool(a == b) and bool(b == a)
-                    same = cdump(a) == cdump(b)
-                    acc.check("flags_equal_passes", eq and same, sub, f"==: {eq}, equal dumps: {same}")
+        sub = slim(case, override=ov, expand_macro=em, expand_let=el, expand_let_map=elm)
+        a, ea = None, None
+        try:
+            a = parse(text, mode, override_dict=od, expand_macro=em, expand_let=el, expand_let_map=elm)
+        except Exception as e:  # noqa
+            ea = err_class(e)
+        if sxj is not None and with_driver:
+            req = {"op": "parse_flags", "sx": sxj, "natives": NATIVES_JSON if mode == "gates" else None,
+                   "expand_macro": em, "expand_let": el, "expand_let_map": elm,
+                   "override": [[n, dump.num(v)] for n, v in ov]}
+            acc.reqs.append(req)
+            acc.expect.append(("parse_flags", sub, dump_outcome(a, ea)))
+        hand = []
+        if em:
+            hand.append(["macros", True])
+        if elm:
+            hand += [["let", ov], ["map"]]
+        elif el:
+            hand.append(["let", ov])
+        if "err" in c0_outcome:
+            b, eb = None, c0_outcome["err"]
+        else:
+            b, eb = apply_all(hand, c0_outcome["ok"])
+        if ea is not None or eb is not None:
+            acc.check("flags_equal_passes", ea == eb, sub, f"flags: {ea}, by hand: {eb}")
+            continue
+        eq = bool(a == b) and bool(b == a)
+        same = cdump(a) == cdump(b)
+        acc.check("flags_equal_passes", eq and same, sub, f"==: {eq}, equal dumps: {same}")
 
 
 def process(acc, case, with_driver):
@@ -568,20 +581,7 @@ def process(acc, case, with_driver):
         sxj = dump.sexpr(parse_to_sexpression(text))
     except Exception:  # noqa
         sxj = None
-    if sxj is not None and with_driver:
-        for em, el, elm in case["flags"]:
-            for ov in ([], case["ov"]):
-                od = {n: v for n, v in ov} if ov else None
-                try:
-                    r = dump_outcome(parse(text, mode, override_dict=od, expand_macro=em, expand_let=el, expand_let_map=elm), None)
-                except Exception as e:  # noqa
-                    r = {"err": err_class(e)}
-                req = {"op": "parse_flags", "sx": sxj, "natives": NATIVES_JSON if mode == "gates" else None,
-                       "expand_macro": em, "expand_let": el, "expand_let_map": elm,
-                       "override": [[n, dump.num(v)] for n, v in ov]}
-                acc.reqs.append(req)
-                acc.expect.append(("parse_flags", slim(case, override=ov, expand_macro=em, expand_let=el, expand_let_map=elm), r))
-    oracle_flags(acc, case, c0)
+    oracle_flags(acc, case, c0, sxj, with_driver)
     if c is None:
         return
     try:
@@ -625,7 +625,7 @@ def process(acc, case, with_driver):
         acc.expect.append(("apply_seq", slim(case, passes=case["passes"]), steps[-1]))
     # --- commutation
     oracle_commute(acc, case, c, baked_lets(c))
-    if mode == "nogates" and "macro M0 " in text and "subcircuit" in text and case["perm_seed"] % 4 == 0:
+    if mode == "nogates" and "macro M0 " in text and "subcircuit" in text:
         oracle_bounding_name(acc, case)
     feat = (tuple(p[0] for p in case["passes"]), text)
     acc.nontrivial.add(json.dumps(feat))
@@ -686,12 +686,13 @@ def replay(case: dict, driver: str = DEFAULT_DRIVER) -> dict:
             model = canon_model(run_driver(driver, [req])[0])
         except Exception as e:  # noqa
             detail = f"no S-expression: {e}"
-        full = dict(case, ov=ov, id=case.get("id", 0))
+        full = dict(case, ov=ov, id=case.get("id", 0),
+                    flag_combos=[[case["expand_macro"], case["expand_let"], case["expand_let_map"], bool(ov)]])
         try:
             c0 = {"ok": parse(text, mode)}
         except Exception as e:  # noqa
             c0 = {"err": err_class(e)}
-        oracle_flags(acc, full, c0)
+        oracle_flags(acc, full, c0, None, False)
     else:
         c = parse(text, mode)
         if "order1" in case:
